@@ -65,9 +65,25 @@ def reverse_search(ctx):
                         st = ChainState(pos=q, mom=None, dir=1)
                         st.mom = s.sample_momentum(st, rng)
                         trial(f"CLF_{solver.__name__[31:]}_n{n_inner}|{kind}|eps={eps}", integ, st, 1, 1e-5)
+    # implicit integrators on strongly varying metrics with large steps: the implicit equations have several solutions / non-contractive iterations, so the
+    # reverse checks must fire instead of returning irreversible states
+    import mici.systems as S
+    rsys = {"1.5+sin(3q)": S.DiagonalRiemannianMetricSystem(lambda q: 0.5 * np.sum(q ** 2), grad_neg_log_dens=lambda q: q, metric_diagonal_func=lambda q: 1.5 + np.sin(3 * q),
+                                                           vjp_metric_diagonal_func=lambda q: (lambda m: 3 * m * np.cos(3 * q))),
+            "1+q^2": S.DiagonalRiemannianMetricSystem(lambda q: 0.5 * np.sum(q ** 2), grad_neg_log_dens=lambda q: q, metric_diagonal_func=lambda q: 1 + q ** 2,
+                                                     vjp_metric_diagonal_func=lambda q: (lambda m: 2 * m * q))}
+    for mname, sysm in rsys.items():
+        rng = np.random.default_rng(int(ctx.rng.integers(0, 2 ** 31)))
+        for solver in (mici.solvers.solve_fixed_point_direct, mici.solvers.solve_fixed_point_steffensen):
+            for eps in (0.5, 1.0, 1.5):
+                for icls in (mici.integrators.ImplicitLeapfrogIntegrator, mici.integrators.ImplicitMidpointIntegrator):
+                    integ = icls(sysm, eps, fixed_point_solver=solver)
+                    for _ in range(12 if not ctx.thorough else 60):
+                        st = ChainState(pos=1.5 * rng.standard_normal(2), mom=2.0 * rng.standard_normal(2), dir=int(rng.choice([-1, 1])))
+                        trial(f"{icls.__name__[:12]}_{solver.__name__[18:]}|riem {mname}|eps={eps}", integ, st, int(rng.choice([1, 2])), 1e-4)
     ctx.extra["returned_vs_loud_failures"] = stats
     ctx.oblige("search: n steps / flip / n steps on every integrator x system pair (all solvers, inner step counts, both density conventions) and on strongly "
-               "curved manifolds with large steps: returned states reverse to the start, failures are IntegratorErrors, inputs untouched",
+               "curved manifolds / strongly varying Riemannian metrics with large steps: returned states reverse to the start, failures are IntegratorErrors, inputs untouched",
                bad == 0, f"{bad} failures; {stats}")
 
 
